@@ -149,6 +149,10 @@ def eval_app(v, env):
         return _bcast(lambda x: not x, E(0))
     if fn == "truthy":
         return _bcast(lambda x: bool(x), E(0))
+    if fn in ("any", "all") and len(a) == 1 and not v.kw:
+        x = E(0)
+        xs = list(x) if isinstance(x, Arr) else [x]
+        return (any if fn == "any" else all)(bool(i) for i in xs)
     if fn == "ite":
         c = E(0)
         if isinstance(c, Arr):
